@@ -102,9 +102,10 @@ def run(ctx):
         for a, b in ae:
             adj[a].append(b)
             adj[b].append(a)
-        if not exact_pm(P, {v: [w for w in adj[v] if w in P] for v in P}):
-            continue
-        for k in range(3):
+        kek = exact_pm(P, {v: [w for w in adj[v] if w in P] for v in P})
+        # systems without a Kekule structure are fed as well: the encoder should reject them (C05 judges that); whatever
+        # it accepts must survive the round trip
+        for k in range(3 if kek else 2):
             s, order, _, _ = spell(m, rng)
             if case(s, table, "q12", "aromatic") == "ok":
                 ctx.count("aromatic_roundtrips_ok")
